@@ -35,7 +35,7 @@ func init() {
 		Finish:         finish,
 		MinEvaluations: map[string]int{"quick": 3000000, "thorough": 250000000},
 		MinNontrivial:  map[string]int{"quick": 500000, "thorough": 10000000},
-		RequiredObs:    []string{"aut>1", "rep:dense", "rep:sparse", "library_path_checked", "large_cell_graphs(n>=21)"},
+		RequiredObs:    []string{"aut>1", "rep:dense", "rep:sparse", "library_path_checked", "large_cell_graphs(n>=21)", "big_cell_cases"},
 	})
 }
 
@@ -379,6 +379,69 @@ func run(c *engine.Ctx) {
 				if i < 2 {
 					c.Sample("seeded", map[string]interface{}{"kind": kind, "n": g.N, "m": g.M(), "g": g.Key()})
 				}
+			}
+		})
+	}
+
+	// (d2) big cells with remaining symmetry: a large homogeneous part (so that the first refinement sorts a cell of more
+	// than 20 vertices by at least two distinct neighbour counts: the merge phase of the refinement's stable sort)
+	// plus small symmetric components that force the search to branch; also complements.
+	type part struct {
+		name string
+		g    *rg.G
+	}
+	bigParts := func(m int) []part {
+		return []part{
+			{fmt.Sprintf("K%d", m), gen.Complete(m)}, {fmt.Sprintf("E%d", m), rg.New(m)}, {fmt.Sprintf("C%d", m), gen.Cycle(m)},
+			{fmt.Sprintf("K%d,%d", m/2, m-m/2), gen.CompleteMultipartite(m/2, m-m/2)}, {fmt.Sprintf("%dK2", m/2), gen.Copies(gen.Complete(2), m/2)},
+			{fmt.Sprintf("star%d", m), gen.CompleteMultipartite(1, m-1)}, {fmt.Sprintf("%dK3", m/3), gen.Copies(gen.Complete(3), m/3)},
+		}
+	}
+	smallParts := []part{{"C3", gen.Cycle(3)}, {"C4", gen.Cycle(4)}, {"C5", gen.Cycle(5)}, {"K4", gen.Complete(4)}, {"P3", gen.PathG(3)}, {"P2", gen.PathG(2)}, {"K1", rg.New(1)}, {"P4", gen.PathG(4)}, {"C6", gen.Cycle(6)}, {"K1,3", gen.CompleteMultipartite(1, 3)}}
+	type bigCase struct {
+		name string
+		g    *rg.G
+	}
+	var bigCases []bigCase
+	for _, m := range []int{14, 15, 17, 20, 21, 24, 33, 41} {
+		for bi, b := range bigParts(m) {
+			for combo := 0; combo < 4; combo++ {
+				g := b.g
+				name := b.name
+				// deterministic choice of 2-3 small parts
+				idx := []int{(bi + combo) % len(smallParts), (bi*3 + combo*5 + m) % len(smallParts), (combo*7 + m/3) % len(smallParts)}
+				if combo%2 == 0 {
+					idx = idx[:2]
+				}
+				for _, i := range idx {
+					g = rg.Union(g, smallParts[i].g)
+					name += "+" + smallParts[i].name
+				}
+				if g.N < 21 {
+					g = rg.Union(g, gen.Cycle(21-g.N+3))
+					name += "+pad"
+				}
+				if combo == 3 {
+					g = g.Complement()
+					name = "co(" + name + ")"
+				}
+				bigCases = append(bigCases, bigCase{name, g})
+			}
+		}
+	}
+	stepBig := c.Pick(3, 1) // quick: every 3rd case (rotating with the seed), thorough: all
+	for bi := range bigCases {
+		bi := bi
+		if (bi+int(c.Seed()))%stepBig != 0 {
+			continue
+		}
+		c.Unit("big-cells/"+bigCases[bi].name, func() {
+			bc := bigCases[bi]
+			c.Obs("large_cell_graphs(n>=21)", 1)
+			c.Obs("big_cell_cases", 1)
+			checkClass(c, "big-cells", "big-cells:"+bc.name, bc.g, c.Pick(40, 160), func(i int) *engine.Rng { return c.Rand("c01-bigcells-"+bc.name, i) }, big.NewInt(2))
+			if bi < 3 {
+				c.Sample("big-cells", map[string]interface{}{"name": bc.name, "n": bc.g.N, "m": bc.g.M()})
 			}
 		})
 	}
